@@ -20,14 +20,14 @@ import (
 // clock; the run is a discrete-event simulation up to 6 x the largest interval.
 
 type c15Cfg struct {
-	N         int             // validator instances
-	Intervals []time.Duration // per instance
-	Phases    []time.Duration // provision time offset of instance i (i>0) relative to instance 0
-	Dur       time.Duration   // duration of a download (virtual)
-	Script    string          // per-location outcome script after publication of v2: e.g. "ffo" = fail, fail, ok (then ok forever)
-	Sig       config.SignatureValidationMode
+	N          int             // validator instances
+	Intervals  []time.Duration // per instance
+	Phases     []time.Duration // provision time offset of instance i (i>0) relative to instance 0
+	Dur        time.Duration   // duration of a download (virtual)
+	Script     string          // per-location outcome script after publication of v2: e.g. "ffo" = fail, fail, ok (then ok forever)
+	Sig        config.SignatureValidationMode
 	Background bool
-	Source    string // crl_files | crl_urls | cdp
+	Source     string // crl_files | crl_urls | cdp
 }
 
 func (c c15Cfg) String() string {
@@ -36,7 +36,7 @@ func (c c15Cfg) String() string {
 }
 
 type c15Obs struct {
-	Viols []c14Viol
+	Viols   []c14Viol
 	Fetches map[string][]time.Duration // per location URL: attempt times (relative to epoch)
 }
 
